@@ -154,6 +154,13 @@ def gen(rng, prop, tier):
             c = cfg['probes'][rng.randrange(1, k)]
             c['ns'] = rng.choice([8200, 16400, 17000])
             c['ties'] = True
+        tot = max(sum(c['nt'] for c in cfg['probes']), sum(c['nc'] for c in cfg['probes']))
+        for c in cfg['probes'][1:]:
+            if rng.random() < 0.15:
+                # 8/16-bit index tables that can hold the merged numbering (only in later probes:
+                # the merged table takes the first probe's dtype)
+                c['dtypes']['find'] = rng.choice(['uint16', 'int16', 'uint8'] if tot < 120
+                                                 else ['uint16', 'int16'])
         if prop in ('C11', 'C12') and rng.random() < 0.1:
             # a dead / saturated channel in the LAST template of a probe (NaN or inf everywhere)
             c = cfg['probes'][rng.randrange(k)]
@@ -200,6 +207,7 @@ def gen(rng, prop, tier):
         d['npcs'] = 2
     d['extras'] = {'ks_label': rng.random() < 0.5, 'temp_wh': rng.random() < 0.4,
                    'channel_labels': rng.random() < 0.3, 'drift': rng.random() < 0.2,
+                   'alf_rawind': rng.random() < 0.12,
                    'pre_store': False}
     if p['raw'] and rng.random() < 0.3:
         d['extras']['pre_store'] = True
@@ -214,7 +222,8 @@ def gen(rng, prop, tier):
     ops = [{'op': 'load'}]
     if rng.random() < 0.3:
         ops.append({'op': 'convert_into_source',
-                    'alias': rng.choice(['same', 'str', 'symlink', 'dotdot', 'trailing'])})
+                    'alias': rng.choice(['same', 'str', 'symlink', 'dotdot', 'trailing']),
+                    'force': rng.random() < 0.4})
     ops.append({'op': 'convert', 'label': rng.choice(['', '', 'probe00', 'x1', 'clusters', 'amps',
                                                        'times', 'templates', 'uuids', 'npy']),
                 'ampfactor': rng.choice([1, 1, 2.34e-6, 2.5, 0.5]), 'force': rng.random() < 0.3})
@@ -409,11 +418,19 @@ class Probe(object):
                                                             else 0]
             if not vals:
                 vals[int(ids[0])] = 'good' if field == 'KSLabel' else 1.5
+            self.tsv_phantom = getattr(self, 'tsv_phantom', {})
+            if rs.rand() < 0.12:
+                # a row for an id ABOVE the probe's highest cluster id (one row per template, the
+                # last template without spikes): it belongs to no cluster of this probe
+                ph = int(ids.max()) + 1 + int(rs.randint(0, 2))
+                self.tsv_phantom.setdefault(name, {})[ph] = 'mua' if field == 'KSLabel' else 77.5
             with open(self.dir / name, 'w', newline='') as f:
-                wr = csv.writer(f, delimiter='\t')
+                wr = csv.writer(f, delimiter=',' if (cfg['seed'] + len(name)) % 9 == 0 else '\t')
                 wr.writerow(['cluster_id', field])
-                for c in sorted(vals):
-                    wr.writerow([c, vals[c]])
+                rows_ = dict(vals)
+                rows_.update(self.tsv_phantom.get(name, {}))
+                for c in sorted(rows_):
+                    wr.writerow([c, rows_[c]])
             self.tsv[name] = (field, vals)
 
 
@@ -516,8 +533,18 @@ def check_merge(ctx, probes, out, model):
                                   'why': 'id carrying a metadata row (no spike)'})
                     if v == 0 and not isinstance(v, str):
                         ctx.probe('tsv_value_zero')
-            same = set(got) == set(exp) and all(
-                type(got[c]) is type(exp[c]) and got[c] == exp[c] for c in exp)
+            # rows for ids above a probe's highest cluster id belong to no cluster: where they land
+            # in the merged numbering they may appear or not, but never instead of a real row
+            phantom = {}
+            for p in have:
+                o = next(iter(offs['c'][p.index]))
+                for c, v in getattr(p, 'tsv_phantom', {}).get(name, {}).items():
+                    if c + o not in exp:
+                        phantom[c + o] = v
+                        ctx.probe('tsv_row_above_highest_cluster_id')
+            same = set(exp) <= set(got) <= set(exp) | set(phantom) and all(
+                type(got[c]) is type(exp[c]) and got[c] == exp[c] for c in exp) and all(
+                got[c] == phantom[c] for c in got if c not in exp)
             ctx.check(same and field == have[0].tsv[name][0], 'merged-tsv-content',
                       lambda: {'file': name, 'got': sorted(got.items())[:6],
                                'expected': sorted(exp.items())[:6]})
@@ -1049,6 +1076,10 @@ def run_ops(plan, ctx, cfg):
             (src_dir / 'temp_wh.dat').write_bytes(bytes(rs.randint(0, 256, size=64).tolist()))
         if ex['channel_labels']:
             np.save(src_dir / 'channel_labels.npy', rs.randint(0, 4, size=d['nc']))
+        if ex.get('alf_rawind'):
+            # an ALF-named copy of the channel map next to the KiloSort files (the loader prefers
+            # channel_map.npy; the export must still write its own channels.rawInd)
+            np.save(src_dir / 'channels.rawInd.npy', np.asarray(g.chmap))
         if ex['drift']:
             np.save(src_dir / 'drift.times.npy', np.arange(5.0))
             np.save(src_dir / 'drift.um.npy', rs.normal(size=(5, 3)))
@@ -1211,7 +1242,11 @@ def run_ops(plan, ctx, cfg):
             elif alias == 'trailing':
                 target = str(src_dir) + '/'
             try:
-                creator.convert(target)
+                if op.get('force'):
+                    ctx.probe('convert_into_source:force')
+                    creator.convert(target, force=True)
+                else:
+                    creator.convert(target)
             except IOError as e:
                 raised = e
             except Exception as e:
